@@ -26,3 +26,17 @@ package downloader
 //@   props C16
 //@   ensures [writes-only-the-lock-file-of-this-chart] forall p string :: GwrittenPaths[p] && !old(GwrittenPaths)[p] ==> p == fjoin(chartpath, "Chart.lock") || p == fjoin(chartpath, "requirements.lock")
 //@   ensures [never-through-a-symlink] forall p string :: GwrittenPaths[p] && !old(GwrittenPaths)[p] ==> !isSymlinkAt(p)
+
+// ---- C19: the repository whose credentials are used for an absolute chart URL is the one whose index
+// lists that URL, wherever the archive is hosted: "no owner" is reported only when no configured
+// repository's cached index lists it (otherwise the credentials would be scoped to the chart URL)
+//@ func (*ChartDownloader).scanReposForURL
+//@   props C19
+//@   requires c != nil && rf != nil && (forall j int :: 0 <= j && j < len(rf.Repositories) ==> rf.Repositories[j] != nil)
+//@   ensures [no-owner-only-if-no-index-lists-the-url] at "return nil, ErrNoOwnerRepo" (forall j int :: 0 <= j && j < len(rf.Repositories) ==> !listed(fjoin(c.RepositoryCache, cacheIndexName(rf.Repositories[j].Name)), u))
+//@   ensures [owner-is-a-configured-repository] result1 == nil ==> (exists j int :: 0 <= j && j < len(rf.Repositories) && result0 == rf.Repositories[j])
+//@   loop 1 invariant [repositories-so-far-do-not-list-it] forall j int :: 0 <= j && j < #iter ==> !listed(fjoin(c.RepositoryCache, cacheIndexName(#range[j].Name)), u)
+//@   loop 1 invariant [inputs] c != nil && rf != nil && #range == rf.Repositories && c.RepositoryCache == old(c.RepositoryCache) && (forall j int :: 0 <= j && j < len(rf.Repositories) ==> rf.Repositories[j] != nil && rf.Repositories[j].Name == old(rf.Repositories[j].Name))
+//@   loop 2 invariant [charts-so-far-do-not-list-it] forall k string :: #done[k] ==> (forall a, b int :: 0 <= a && a < len(i.Entries[k]) && 0 <= b && b < len(i.Entries[k][a].URLs) ==> !urlEqual(u, i.Entries[k][a].URLs[b]))
+//@   loop 3 invariant [versions-so-far-do-not-list-it] forall a, b int :: 0 <= a && a < #iter && 0 <= b && b < len(#range[a].URLs) ==> !urlEqual(u, #range[a].URLs[b])
+//@   loop 4 invariant [urls-so-far-differ] forall b int :: 0 <= b && b < #iter ==> !urlEqual(u, #range[b])
